@@ -23,7 +23,7 @@ inductive Cond
   | ipv8Payload    -- DataChecker.could_be_ipv8(data)                 (own-circuit branch of on_data)
   | e2eCircuit     -- circuit.ctype in [CIRCUIT_TYPE_RP_DOWNLOADER, CIRCUIT_TYPE_RP_SEEDER]
   | ownPrefix      -- self._prefix == data[:22]
-  | nestedData     -- data[22] == DataPayload.msg_id   (a DATA cell nested in the payload of a DATA cell)
+  | exitMessage    -- data[22] in self.exit_msg_ids   (a message type registered with add_cell_handler(..., from_exit=True))
   | tunnelEndpoint -- isinstance(self.endpoint, TunnelEndpoint)
   deriving DecidableEq, Repr, Inhabited
 
